@@ -298,6 +298,10 @@ func outKind(line string) string {
 		return f[0] + " " + f[1]
 	}
 
+	if i := strings.IndexAny(f[0], "[=:"); i > 0 {
+		return f[0][:i] // structured line: keep only its leading tag
+	}
+
 	if f[0] == "ev" && len(f) > 1 {
 		t, _, _ := strings.Cut(f[1], "~")
 
